@@ -412,6 +412,9 @@ func runC11(c *Ctx) {
 		args := sbd["$z"]
 		_, okD := ana.Match("call<(hash.Hash).Sum>(obj(call<(crypto.Hash).New>(load(global<repo/pkg/pow.Hash>)), call<(hash.Hash).Write>(self, slice(p0, 0, bin<->(len(p0), 8)))), nil)", args.Arg(0))
 		_, okN := ana.Match("call<(encoding/binary.littleEndian).Uint64>(load(global<encoding/binary.LittleEndian>), slice(p0, bin<->(len(p0), 8), none))", args.Arg(1))
+		// … or those 8 bytes handed on as they are: b1t6 of them is b1t6 of the little-endian bytes of that uint64
+		_, rawN := ana.Match("slice(p0, bin<->(len(p0), 8), none)", args.Arg(1))
+		okN = okN || rawN
 		r.Check(okD && okN, "C11.nonce-layout.score-inputs", c.P.Pos(sc.Pos()), "Score: digest = pow.Hash(msg[:len-8]); nonce = little-endian uint64 of the last 8 bytes")
 		// Mine's digest: pow.Hash over data
 		mOK := false
@@ -443,10 +446,17 @@ func runC11(c *Ctx) {
 			want := "call<github.com/iotaledger/iota.go/trinary.TrailingZeros>(ext#0(call<*>(obj(call<github.com/iotaledger/iota.go/curl.NewCurlP81>, call<*>(self, slice(obj(alloc<[243]int8>, call<github.com/iotaledger/iota.go/encoding/b1t6.Encode>(slice(self, 0, 243), p0), call<*>(slice(slice(self, 0, 243), call<github.com/iotaledger/iota.go/encoding/b1t6.Encode>(_, p0), none), p1)), 0, 243))), 243)))"
 			_, ok := ana.Match(want, t)
 			var enc2 *ssa.Function
-			if w, _ := ana.Find("call<*>(slice(slice(self, 0, 243), _, none), p1)", t); w != nil {
+			w, _ := ana.Find("call<*>(slice(slice(self, 0, 243), _, none), p1)", t)
+			if w != nil {
 				enc2 = calleeOf(w)
 			}
-			r.Check(ok && enc2 != nil && enc2 == encNonce, "C11.nonce-layout.sibling", c.ipos(e.Instr), "Score's block = b1t6(digest) at trit 0, then the same nonce encoder the worker uses at the offset b1t6.Encode returned (= EncodedLen(len(digest))), absorbed by Curl-P-81, 243 trits squeezed %s", ana.Explain(want, t))
+			sameEnc := enc2 != nil && enc2 == encNonce
+			if rawN {
+				// the raw bytes go straight to b1t6.Encode — what the worker's encoder (decided below) does with the
+				// little-endian bytes of the nonce
+				sameEnc = w != nil && w.Is("call", "github.com/iotaledger/iota.go/encoding/b1t6.Encode")
+			}
+			r.Check(ok && sameEnc, "C11.nonce-layout.sibling", c.ipos(e.Instr), "Score's block = b1t6(digest) at trit 0, then the same nonce encoder the worker uses at the offset b1t6.Encode returned (= EncodedLen(len(digest))), absorbed by Curl-P-81, 243 trits squeezed %s", ana.Explain(want, t))
 		}
 		if encNonce != nil {
 			r.Fn(ana.ShortFunc(encNonce))
